@@ -138,7 +138,9 @@ def classify(run, tags, spans, fns, sections, lines, fn_props):
     """-> (failures, structural) ; failure = dict(fn, name, props, msg, line, src, text, kind)"""
     failures, structural = [], []
     out = run["out"]
-    verified_stage = bool(out and out.get("verification-results") and not out["verification-results"].get("encountered-vir-error"))
+    vr = (out or {}).get("verification-results") or {}
+    # rustc / VIR errors abort before any obligation is checked: those are tool rejections, never failed obligations
+    verified_stage = bool(vr and not vr.get("encountered-vir-error") and (vr.get("verified", 0) + vr.get("errors", 0)) > 0)
 
     def fn_at(line):
         for f in fns:
@@ -163,7 +165,7 @@ def classify(run, tags, spans, fns, sections, lines, fn_props):
         sps = [s for s in d.get("spans", []) if s["file_name"].endswith("griddle_verus.rs")]
         prim = [s for s in sps if s["is_primary"]]
         # once Verus has reached the verification stage every error is a failed obligation (or a solver limit)
-        is_verif = verified_stage
+        is_verif = verified_stage and not d.get("code")
         is_undec = any(m.lower() in msg.lower() for m in UNDECIDED_MESSAGES)
         if not is_verif or is_undec:
             f = fn_at(prim[0]["line_start"]) if prim else None
